@@ -89,7 +89,7 @@ def run_path(fn, params, prefix, step_budget, solver_timeout_ms, profile=False):
     return status, ctx, COVER, msg
 
 
-def explore_chunk(modname, obname, scen_idx, prefixes, tier, chunk_s, max_paths):
+def explore_chunk(modname, obname, scen_idx, prefixes, tier, chunk_s, max_paths, want_split=1):
     """Worker: explore the subtrees under `prefixes` for at most chunk_s seconds; return stats and
     the prefixes that remain."""
     mod = importlib.import_module(modname)
@@ -101,10 +101,19 @@ def explore_chunk(modname, obname, scen_idx, prefixes, tier, chunk_s, max_paths)
               requires=0, discharged=0, trivial=0, nontrivial_paths=0, violations=[], msgs={},
               cover={}, samples=[], funcs=[], forks={}, max_depth=0)
     first = True
+    expand = 0
     while work:
+        if len(st["violations"]) >= 200:
+            break  # plenty of counterexamples from this chunk; let the master decide whether to go on
         if st["paths"] and (time.time() - t0 > chunk_s or (max_paths and st["paths"] >= max_paths)):
-            break
-        prefix = work.pop()
+            # before handing the rest back, widen a too-narrow frontier breadth-first so that the
+            # master has subtrees to distribute
+            if len(work) >= want_split or expand >= 3 * want_split:
+                break
+            expand += 1
+            prefix = work.pop(0)
+        else:
+            prefix = work.pop()
         profile = first and not prefix
         first = False
         status, ctx, cov, msg = run_path(ob.fn, params, prefix, ob.step_budget, ob.solver_timeout_ms, profile)
@@ -144,6 +153,8 @@ def explore_chunk(modname, obname, scen_idx, prefixes, tier, chunk_s, max_paths)
             v["params"] = params
             st["violations"].append(v)
         work.extend(ctx.pending)
+        if expand:
+            continue
     st["leftover"] = work
     st["sources"] = dict(loader.SOURCES)
     return st
@@ -159,7 +170,7 @@ def _init_worker(mode, root):
     loader.activate(root)
 
 
-def run_obligations(modname, tier, workers=None, only=None, log=print):
+def run_obligations(modname, tier, workers=None, only=None, log=print, is_known=None):
     """Master: run every obligation of a harness module.  Returns a list of per-obligation
     result dicts."""
     workers = workers or int(os.environ.get("VERIF_WORKERS", os.cpu_count() or 4))
@@ -188,7 +199,11 @@ def run_obligations(modname, tier, workers=None, only=None, log=print):
                     if s["queue"] and not s["timed_out"]:
                         i, prefixes = s["queue"].pop(0)
                         ob = s["ob"]
-                        f = ex.submit(explore_chunk, modname, name, i, prefixes, tier, ob.chunk_s, ob.max_paths)
+                        queued = sum(len(x["queue"]) for x in state.values())
+                        starving = queued + len(futs) < workers
+                        f = ex.submit(explore_chunk, modname, name, i, prefixes, tier,
+                                      min(ob.chunk_s, 0.7) if starving else ob.chunk_s, ob.max_paths,
+                                      workers if starving else 2)
                         futs[f] = (name, i)
                         s["inflight"] += 1
                         progressed = True
@@ -210,6 +225,13 @@ def run_obligations(modname, tier, workers=None, only=None, log=print):
                               max_depth=0, leftover=[], sources={})
                 _merge(s, st, i)
                 left = st["leftover"]
+                s["unknown_viol"] = s.get("unknown_viol", 0) + sum(1 for v in st["violations"] if not (is_known and is_known(v)))
+                if s["unknown_viol"] >= 40 and not s.get("stopped"):
+                    # verdict is already 'violated'; do not keep exploring a broken tree
+                    s["stopped"] = True
+                    s["queue"] = []
+                if s.get("stopped"):
+                    left = []
                 if left:
                     # split the remaining prefixes into several tasks (shallow ones first = big subtrees)
                     k = max(1, min(len(left), workers))
@@ -259,6 +281,8 @@ def _finish(s):
                          requires=0, discharged=0, trivial=0, nontrivial_paths=0, violations=[], msgs={},
                          cover={}, samples=[], funcs=set(), forks={}, max_depth=0, sources={}, scen_nontrivial={})
     reasons = []
+    if s.get("stopped"):
+        reasons.append("exploration stopped early after 40 counterexamples")
     if s["timed_out"]:
         reasons.append("budget of %ds exhausted before the path tree was exhausted" % ob.budget_s)
     if a["unsupported"]:
@@ -268,7 +292,7 @@ def _finish(s):
     if a["error"]:
         reasons.append("%d path(s) ended in a harness error" % a["error"])
     vac = [i for i in range(len(ob.scenarios)) if not a["scen_nontrivial"].get(i)]
-    if vac and not s["timed_out"]:
+    if vac and not s["timed_out"] and not s.get("stopped"):
         reasons.append("vacuous: scenario(s) %s reached no assertion on any feasible path" % vac[:8])
     missing = [c for c in ob.must_cover if not a["cover"].get(c)]
     if missing:
